@@ -269,8 +269,10 @@ func genC06(g *Gen) {
 	g.setMode(0)
 	for !g.w.full() {
 		switch g.r.Intn(9) {
-		case 8: // both ends of the range, every coefficient shape
-			if g.r.Intn(2) == 0 {
+		case 8: // both ends of the range, every coefficient shape; word-boundary coefficients
+			if g.r.Intn(3) == 0 {
+				g.str(mk(g.r.Intn(2) == 0, g.boundaryCoef(), g.r.Intn(61)-40))
+			} else if g.r.Intn(2) == 0 {
 				g.str(g.topValue())
 			} else {
 				g.str(g.bottomValue())
